@@ -175,13 +175,15 @@ def codec_agreement(ctx):
     raw_label = len(stores) == 1 and isinstance(stores[0].value, ast.Name) and stores[0].value.id in ser.params()
     encs = []
     for nm in ("encode", "encodeStrict"):
-        m = cls.find_method(nm)
-        if m is None:
+        if cls.find_method(nm) is None:
             raise AnalysisError("HTMLSerializer.%s vanished" % nm)
+    # the str.encode calls of the class (in encode / encodeStrict or in a helper they share)
+    for m in cls.methods.values():
         for c in ast.walk(m.node):
-            if isinstance(c, ast.Call) and isinstance(c.func, ast.Attribute) and c.func.attr == "encode" and c.args:
-                encs.append((nm, c))
-    by_label = [(nm, c) for nm, c in encs if norm(c.args[0]) == "self.encoding" and norm(c.func.value) in [p for p in ("string", "s", "data", "text")] + [cls.find_method(nm).params()[1]]]
+            if isinstance(c, ast.Call) and isinstance(c.func, ast.Attribute) and c.func.attr == "encode" and c.args and \
+                    isinstance(c.func.value, ast.Name) and c.func.value.id in m.params()[1:]:
+                encs.append((m.name, c))
+    by_label = [(nm, c) for nm, c in encs if norm(c.args[0]) == "self.encoding"]
     resolved = any("lookup" in norm(n) for n in ast.walk(ser.node) if isinstance(n, ast.Call)) or \
         any("codec_info" in norm(c) or "incrementalencoder" in norm(c) for _, c in encs)
     r.idiom("R15.6", bool(encs) and resolved and not by_label, "encoder-of-declared-label", ser.where,
@@ -404,8 +406,33 @@ def run(ctx):
             r.ok("R15.3", key, "serializer.py:%d" % y.lineno, detail={"kind": "markup", "via": norm(val.func)})
     enc = repo.func("serializer.py", "HTMLSerializer.encode")
     encs = repo.func("serializer.py", "HTMLSerializer.encodeStrict")
-    r.check("R15.3", "string.encode(self.encoding, 'htmlentityreplace')" in norm(enc.node) and "string.encode(self.encoding, 'strict')" in norm(encs.node),
-            "encoder-error-handlers", enc.where, "encode()/encodeStrict() no longer use the htmlentityreplace / strict error handlers")
+    def handler_of(m, depth=0):
+        """the error-handler name with which the method encodes its argument (through one helper method at most)"""
+        found = set()
+        for c in ast.walk(m.node):
+            if isinstance(c, ast.Call) and isinstance(c.func, ast.Attribute) and c.func.attr == "encode" and len(c.args) == 2 and \
+                    norm(c.func.value) != "self":
+                v = ce.try_eval(c.args[1], m.module)
+                found.add(v if isinstance(v, str) else ("param", norm(c.args[1])))
+            elif depth == 0 and isinstance(c, ast.Call) and isinstance(c.func, ast.Attribute) and norm(c.func.value) == "self" and m.cls is not None:
+                h = m.cls.find_method(c.func.attr)
+                if h is not None and h is not m:
+                    for x in handler_of(h, 1):
+                        if isinstance(x, tuple) and x[1] in h.params():
+                            k = h.params()[1:].index(x[1])
+                            if k < len(c.args):
+                                v = ce.try_eval(c.args[k], m.module)
+                                found.add(v if isinstance(v, str) else ("param", norm(c.args[k])))
+                        else:
+                            found.add(x)
+        return found
+    he, hs = handler_of(enc), handler_of(encs)
+    r.idiom("R15.3", he == {"htmlentityreplace"} and hs == {"strict"}, "encoder-error-handlers", enc.where,
+            "the error handlers of encode() / encodeStrict() were not recognised (%s / %s)" % (sorted(map(str, he)), sorted(map(str, hs))),
+            wrong=[(bool(he) and all(isinstance(x, str) for x in he) and he != {"htmlentityreplace"},
+                    "encode() encodes with the error handler %s, not htmlentityreplace: unencodable text is not written as character references" % sorted(he)),
+                   (bool(hs) and all(isinstance(x, str) for x in hs) and hs != {"strict"},
+                    "encodeStrict() encodes with the error handler %s, not strict: markup that cannot be encoded is silently altered" % sorted(hs))])
     mod = repo.module("serializer.py")
     reg = [norm(s) for s in mod.tree.body if isinstance(s, ast.Expr) and isinstance(s.value, ast.Call) and norm(s.value.func) == "register_error"]
     r.check("R15.3", reg == ["register_error('htmlentityreplace', htmlentityreplace_errors)"], "handler-registered", "serializer.py",
